@@ -7,6 +7,7 @@ CONSTANTS NumNodes <- WNumNodes
           HashLen = 32
           Versions <- WVersions
           MaxRef = 1
+          EdgeDepth <- WEdgeDepth
           StaticVersions = 4
 INVARIANTS LiveReadable FlushIsCache SizeExact ExtSound DiskClosed CacheClosed NoGarbageUnflushed NoGarbageWhenIdle
 VIEW View
